@@ -45,28 +45,54 @@ def frac_model(m):
 
 
 def verify_one(args):
-    qual, thorough = args
+    qual, thorough, initial = args
     try:
         from contracts import load_all
         from pyvc import contract as C, solve, front
         solve.THOROUGH = thorough
         reg = load_all()
         con = reg[qual]
-        res = C.verify(con, reg)
+        res = C.verify(con, reg, initial=initial)
         obls = []
         for o in res.obls:
             obls.append({"name": o.name, "verdict": o.verdict, "backend": o.backend, "ms": o.ms, "kind": o.kind,
                          "detail": o.detail, "model": frac_model(o.model), "path": o.path,
                          "known_ids": list(getattr(o, "known_ids", []) or [])})
-        return {"qual": qual, "relpath": con.relpath, "ast_hash": res.ast_hash, "paths": res.paths,
+        return {"qual": qual, "shard": initial, "relpath": con.relpath, "ast_hash": res.ast_hash, "paths": res.paths,
                 "feasible": res.feasible_paths, "outcomes": res.outcomes, "wall": res.wall,
                 "inlined": sorted(res.inlined), "obligations": obls, "error": None,
                 "solver_s": solve.STATS["solver_s"], "cross": solve.CROSS, "stats": dict(solve.STATS)}
     except Exception as ex:
         kind = type(ex).__name__
-        return {"qual": qual, "error": "%s: %s" % (kind, ex), "error_kind": kind,
+        return {"qual": qual, "shard": initial, "error": "%s: %s" % (kind, ex), "error_kind": kind,
                 "trace": traceback.format_exc(), "obligations": [], "wall": 0, "paths": 0, "feasible": 0,
                 "outcomes": {}, "inlined": [], "relpath": "", "ast_hash": "", "solver_s": 0, "cross": [], "stats": {}}
+
+
+def merge_shards(rs, quals):
+    out = {}
+    for r in rs:
+        q = r["qual"]
+        if q not in out:
+            out[q] = dict(r)
+            out[q]["outcomes"] = dict(r["outcomes"])
+            out[q]["obligations"] = list(r["obligations"])
+            out[q]["inlined"] = list(r["inlined"])
+            out[q]["cross"] = list(r.get("cross", []))
+            continue
+        m = out[q]
+        if r["error"] and not m["error"]:
+            m["error"], m["error_kind"], m["trace"] = r["error"], r.get("error_kind"), r.get("trace")
+        m["paths"] += r["paths"]
+        m["feasible"] += r["feasible"]
+        m["wall"] = max(m["wall"], r["wall"])
+        m["solver_s"] += r.get("solver_s", 0)
+        for k, v in r["outcomes"].items():
+            m["outcomes"][k] = m["outcomes"].get(k, 0) + v
+        m["obligations"] += r["obligations"]
+        m["inlined"] = sorted(set(m["inlined"]) | set(r["inlined"]))
+        m["cross"] += r.get("cross", [])
+    return [out[q] for q in quals if q in out]
 
 
 def load_known():
@@ -120,10 +146,20 @@ def run_property(pid, tier):
     quals = list(getattr(prop, "FUNCTIONS", []))
     results = []
     if quals:
-        nproc = min(len(quals), int(os.environ.get("VERIF_JOBS", "16")))
+        from contracts import load_all
+        reg0 = load_all()
+        jobs = []
+        for q in quals:
+            sh = getattr(reg0[q], "shards", None)
+            for pre in (sh or [None]):
+                jobs.append((q, thorough, pre))
+        # longest first
+        jobs.sort(key=lambda j: 0 if j[2] is not None else 1)
+        nproc = min(len(jobs), int(os.environ.get("VERIF_JOBS", "16")))
         ctx = multiprocessing.get_context("fork")
         with ctx.Pool(nproc) as pool:
-            results = pool.map(verify_one, [(q, thorough) for q in quals], chunksize=1)
+            shard_results = pool.map(verify_one, jobs, chunksize=1)
+        results = merge_shards(shard_results, quals)
     select = getattr(prop, "select", None)
     all_obls = []
     functions = []
